@@ -117,6 +117,8 @@ def c04_scenarios(tier):
             (["-c", "build"], ["build"], None, 99),
             (["-c", "build", "test"], ["build", "test"], None, 1 if tier == "quick" else 2),
             (["-s", "seq", "-c", "lint"], ["build", "test", "lint"], {"seq": ["build", "test"]}, 1 if tier == "quick" else 2),
+            # two sequences given in an order that is not the lexicographic order of their names
+            (["-s", "zz", "aa", "-c", "lint"], ["build", "test", "lint"], {"zz": ["build"], "aa": ["test"]}, 0 if tier == "quick" else 1),
         ]
         for args, cmds, seqs, maxdev in cmdlists:
             modes = [("all", None, [], None, False)]
@@ -550,19 +552,48 @@ def c05_scenarios(tier):
                         a += ["-t"] + explicit + (["--deps"] if deps else [])
                     out.append(("c05", {"shape": sh, "modes": [[t, c, m] for (t, c), m in sorted(modes.items())], "args": a, "commands": cmds,
                                         "sequences": seqs, "checkpoint": cp, "changed": changed, "explicit": explicit, "deps": deps}, {}))
+                    if pi == 0 and n > 1 and mname in ("all", "explicit+deps") and cmds == ["build"]:
+                        # explicit command definitions on a subset of targets, reversed declaration order
+                        for defs in ([paths[0]], [paths[-1]], paths[::2]):
+                            out.append(("c05", {"shape": sh, "modes": [[t, c, m] for (t, c), m in sorted(modes.items())], "args": a, "commands": cmds,
+                                                "sequences": seqs, "checkpoint": cp, "changed": changed, "explicit": explicit, "deps": deps,
+                                                "defs": defs}, {}))
     return out
 
 
 def c05_task(desc):
     ts = shape_targets(desc["shape"])
-    tm = tmap(ts)
     modes = {(t, c): m for t, c, m in desc["modes"]}
+    ext = []
+    if desc.get("defs"):
+        # the named targets define their commands through commands.definitions (explicit paths
+        # outside the default directory); declaration order is reversed so that it differs from
+        # the alphabetical order of the target paths
+        for t in ts:
+            if t["path"] in desc["defs"]:
+                t["commands"] = {"definitions": {}}
+                for c in ("build", "test"):
+                    if modes.get((t["path"], c)) == "x":
+                        t["commands"]["definitions"][c] = {"path": "ext/%s/%s.sh" % (t["path"], c)}
+                        modes[(t["path"], c)] = None   # no file in the default directory
+                        ext.append((t["path"], c))
+        ts = list(reversed(ts))
+    tm = tmap(ts)
     sn = sched.Scenario("c05", ts, modes, desc["args"], desc["commands"], checkpoint=desc["checkpoint"],
                         changed=desc["changed"] or [], sequences=desc["sequences"], explicit=desc["explicit"], deps=desc["deps"])
     s = sc.Scratch("c05")
     viol = []
     try:
         r = sched.build_repo(s, sn)
+        for (t, c) in ext:
+            r.command_file(t, c, "x", cmd_dir="ext/%s" % t, name="%s.sh" % c)
+            modes[(t, c)] = "x"
+        if ext:
+            r.commit("definitions")
+            if desc["checkpoint"]:
+                r.mr("checkpoint", "update")
+                for t in desc["changed"] or []:
+                    r.write(os.path.join(t, "changed2.txt"), "x\n")
         before = r.mr("analyze", "--target-groups")
         bdoc = before.json()
         r.clear_traces()
@@ -740,7 +771,7 @@ RULES = {
     "C04": "(thorough adds every labelled DAG on 2-4 nodes, single command, every release order) scenarios: 12 dependency shapes x selection modes (all targets / changed subset after a checkpoint / -t with --deps) x command lists (build; build test; sequence(build,test) then lint); every child blocks until released; stateless DFS over every release order (single-command scenarios: all orders; multi-command: all schedules with <= max_dev non-default choices) plus the eager deviation for every single child; monitor: at each arrival every dependency in the run and every executable of every earlier command has exited; evaluations = executions (complete runs); non-trivial = scenarios with more than one schedule",
     "C16": "(plus chains of wide groups, e.g. 30/30/10 and 40/40 under 1-2 commands, so that many tasks precede the group under test) group sizes x position of the group in the plan (only, first, middle, last) x 1-2 commands; no member is released before every member of the group has arrived (each member waits for all the others to start); oracle: every member arrives, then the run exits 0 with all success entries; non-trivial = scenarios where the full group rendezvoused for every command",
     "C06": "part B (internal orderings): plans with a group of n in {1,2,3} (thorough 4) followed by a dependent target, all commands succeed, points group.pre_shutdown:<i> and compressor.gone:<x> active; the free run, every single constraint `compressor.gone:x before group.pre_shutdown:i` per group and pairs of constraints (hit b is held until hit a was seen); oracle exit 0, failed=false, all success, stored logs complete. part A: plans = dependency shapes with two commands; fault assignments: every single fault (exit codes, missing x bit, undefined with/without --fail-on-undefined) at every (command,target) position, pairs of faults within a command, and no fault; for each every release order of the groups (<=3 members); oracle: failed flag, exit status, skipped/not-started later groups and commands, status truthfulness; evaluations = executions",
-    "C05": "dependency shapes x command-definition patterns x command lists x selection modes (no targets without checkpoint; checkpoint + every changed subset; -t S; -t S --deps) in trace mode; oracle: result document pairs == commands x selected targets exactly once, groups equal analyze --target-groups taken immediately before (or singletons / a valid layering of the closure), executable starts at most once, exactly once iff defined and nothing failed earlier, never when undefined; evaluations = runs",
+    "C05": "(plus variants in which some targets define the command through commands.definitions with explicit paths and the declaration order is reversed) dependency shapes x command-definition patterns x command lists x selection modes (no targets without checkpoint; checkpoint + every changed subset; -t S; -t S --deps) in trace mode; oracle: result document pairs == commands x selected targets exactly once, groups equal analyze --target-groups taken immediately before (or singletons / a valid layering of the closure), executable starts at most once, exactly once iff defined and nothing failed earlier, never when undefined; evaluations = runs",
 }
 
 
